@@ -69,6 +69,10 @@ structure Thread where
   pend : Option (Nat × Nat) := none
   /-- ghost: the argument of the `p_uthread_exit` call that ended the function, `none` for a plain return -/
   exitArg : Option Int := none
+  /-- `some h`: a library thread whose proxy could not store `h` in the library TLS slot (`is_stored == FALSE`): the proxy
+      itself drops the thread's reference to `h` when the function returns; for the library the thread is an unknown one
+      (`handle = none`: `p_uthread_current` finds an empty slot) -/
+  proxy : Option Nat := none
 
 structure Handle where
   refCount : Int := 0
@@ -88,6 +92,8 @@ structure Handle where
   userRefs : Nat := 0
   /-- ghost: the running thread's own reference (dropped by the library key's destructor) -/
   threadRef : Bool := false
+  /-- ghost: the thread this handle describes runs without the handle in its TLS slot (`Thread.proxy`) -/
+  orphan : Bool := false
 
 structure Key where
   notifier : Bool := false          -- `free_func != NULL`
@@ -165,6 +171,9 @@ inductive Ev
   | joinFail (a : Nat) (h : Nat)                    -- `p_uthread_join` whose `pthread_join` fails
   | tlsFail (t : Nat) (k : Nat) (get : Bool)        -- a TLS call whose lazy `pthread_key_create` fails
   | currentFail (t : Nat)                           -- `p_uthread_current` whose fresh handle cannot be stored: NULL
+  | storeFail (t : Nat) (k : Nat) (replace : Bool)  -- `set_local` / `replace_local` whose `pthread_setspecific` fails
+  | startUnstored (t : Nat)                         -- the proxy's own TLS store does not take (`is_stored == FALSE`)
+  | retUnstored (t : Nat) (h : Nat)                 -- the function of such a thread returns: the proxy unrefs `h`
   deriving DecidableEq, Repr
 
 def upd {α : Type} (f : Nat → α) (i : Nat) (x : α) : Nat → α := fun j => if j = i then x else f j
@@ -258,6 +267,25 @@ def start (s : State) (t : Nat) : Except Err State :=
           tls := upd2 s.tls t n (h + 1)
           thr := upd s.thr t { s.thr t with phase := .running } }
 
+/-- `pp_uthread_proxy` when `p_uthread_set_local (pp_uthread_specific_data, data)` stores nothing (the lazy
+    `pthread_key_create` of the library key, or `pthread_setspecific`, fails): the read-back differs from `data`, so
+    `is_stored = FALSE`; `p_spinlock_lock; p_spinlock_unlock`; the thread function is called.  No destructor will ever run
+    for the handle: the proxy keeps the thread's reference itself (`retUnstored`).  The slot stays empty, so from now on the
+    library takes the thread for one it did not create (`handle := none`). -/
+def startUnstored (s : State) (t : Nat) : Except Err State :=
+  if (s.thr t).phase ≠ .created ∨ (s.thr t).pend ≠ none then .error .notEnabled else
+  match (s.thr t).handle with
+  | none => .error .notEnabled
+  | some h =>
+    match s.spin with
+    | some _ => .error .notEnabled
+    | none =>
+      if valueOf s t 0 ≠ 0 then .error .notEnabled else
+      if (s.hdl h).freed then .error (.useAfterFree h) else
+      .ok { s with
+        hdl := upd s.hdl h { s.hdl h with orphan := true }
+        thr := upd s.thr t { s.thr t with phase := .running, handle := none, proxy := some h } }
+
 /-! ## current / exit / return -/
 
 /-- `p_uthread_current` after the key has been resolved: the stored handle, or a fresh
@@ -296,7 +324,7 @@ def exit (s : State) (t : Nat) (code : Int) : Except Err State :=
 /-- the thread function returns (the proxy returns NULL); `ret_code` is not written.
     The initial thread returning from `main` is process exit, not a thread end. -/
 def ret (s : State) (t : Nat) : Except Err State :=
-  if ¬ canAct s t ∨ t = 0 then .error .notEnabled else
+  if ¬ canAct s t ∨ t = 0 ∨ (s.thr t).proxy ≠ none then .error .notEnabled else
   .ok { s with thr := upd s.thr t { s.thr t with phase := .finished } }
 
 /-! ## reference counting -/
@@ -337,6 +365,14 @@ def join (s : State) (a : Nat) (h : Nat) : Except Err State :=
   .ok { s with
     hdl := upd s.hdl h { s.hdl h with joined := true }
     joinLog := s.joinLog ++ [(a, h, (s.hdl h).retCode)] }
+
+/-- the thread function of a thread started by `startUnstored` returns: `if (is_stored == FALSE) p_uthread_unref (base_thread)`
+    — the proxy gives up the thread's own reference to `h` (an explicit unref, not a TLS destructor) — and returns NULL -/
+def retUnstored (s : State) (t : Nat) (h : Nat) : Except Err State :=
+  if ¬ canAct s t ∨ (s.thr t).proxy ≠ some h then .error .notEnabled else
+  match unrefCore s h true with
+  | .error e => .error e
+  | .ok s1 => .ok { s1 with thr := upd s1.thr t { s1.thr t with phase := .finished } }
 
 /-- `p_uthread_join` on a joinable handle when `pthread_join` returns an error (`p_uthread_wait_internal` only logs it):
     the call does not wait — whatever `ret_code` holds at that moment is returned; the native thread stays unjoined.
@@ -458,6 +494,16 @@ def replaceLocal (s : State) (t : Nat) (k : Nat) (v : Nat) : Except Err State :=
       dtorLog := s.dtorLog ++ notifyOld s t k n replaceCallsNotifier
       tls := upd2 s.tls t n v }
 
+/-- `p_uthread_set_local` / `p_uthread_replace_local` (`replace`) on a resolved key when `pthread_setspecific` returns an error
+    (only `P_ERROR`): nothing is stored.  `p_uthread_replace_local` has by then already passed the old non-NULL value to the
+    notifier — `key->free_func (old_value)` precedes the store — so the destroyed value stays in the slot. -/
+def storeFail (s : State) (t : Nat) (k : Nat) (rep : Bool) : Except Err State :=
+  if ¬ canAct s t ∨ k = 0 ∨ ¬ k < s.nK then .error .notEnabled else
+  match resolve s k with
+  | .error e => .error e
+  | .ok n =>
+    .ok { s with dtorLog := s.dtorLog ++ notifyOld s t k n (if rep then replaceCallsNotifier else setCallsNotifier) }
+
 /-- `p_uthread_get_local` -/
 def getLocal (s : State) (t : Nat) (k : Nat) : Except Err State :=
   if ¬ canAct s t ∨ k = 0 ∨ ¬ k < s.nK then .error .notEnabled else
@@ -555,6 +601,9 @@ def step (s : State) : Ev → Except Err State
   | .joinFail a h => joinFail s a h
   | .tlsFail t k g => tlsFail s t k g
   | .currentFail t => currentFail s t
+  | .startUnstored t => startUnstored s t
+  | .storeFail t k r => storeFail s t k r
+  | .retUnstored t h => retUnstored s t h
 
 def run : State → List Ev → Except Err State
   | s, [] => .ok s
